@@ -13,6 +13,10 @@ import time
 import traceback
 
 ROOT = os.path.dirname(os.path.dirname(os.path.abspath(__file__)))
+# the seeded-change matrix runs checks against a scratch copy of the repository (VERIF_REPO) and must not
+# overwrite the evidence of the real tree: it redirects both output directories
+EVIDENCE_DIR = os.environ.get("VERIF_EVIDENCE_DIR") or os.path.join(ROOT, "evidence")
+REPLAY_ROOT = os.environ.get("VERIF_REPLAY_DIR") or os.path.join(ROOT, "replays")
 REPO = os.environ.get("VERIF_REPO", "/repo")
 
 
@@ -60,7 +64,7 @@ def main(argv=None):
     sys.path.insert(0, ROOT)
     if REPO not in sys.path:
         sys.path.insert(0, REPO)
-    os.makedirs(os.path.join(ROOT, "evidence"), exist_ok=True)
+    os.makedirs(EVIDENCE_DIR, exist_ok=True)
     try:
         mod = importlib.import_module("props." + a.prop)
         prop = mod.PROP
@@ -159,7 +163,7 @@ def run(prop, a, seed, t0):
     n_viol = 0
     suppressed = 0
     suppressed_bounded = 0
-    replay_dir = os.path.join(ROOT, "replays", prop.id)
+    replay_dir = os.path.join(REPLAY_ROOT, prop.id)
 
     def report_violation(name, payload, witness_text, found_input, counted=True):
         nonlocal n_viol, suppressed, suppressed_bounded
@@ -175,7 +179,7 @@ def run(prop, a, seed, t0):
         os.makedirs(replay_dir, exist_ok=True)
         path = os.path.join(replay_dir, safe(name) + ".json")
         json.dump(payload, open(path, "w", encoding="utf-8"), indent=1, ensure_ascii=False, default=str)
-        rel = os.path.relpath(path, ROOT)
+        rel = os.path.relpath(path, ROOT) if path.startswith(ROOT) else path
         out_lines.append(f"VIOLATION property={prop.id} replay={rel}" + ("" if found_input else " no-failing-input-found"))
         n_viol += 1
 
@@ -261,7 +265,7 @@ def run(prop, a, seed, t0):
         wall_s=round(time.time() - t0, 2),
         violations=n_viol,
     )
-    json.dump(ev, open(os.path.join(ROOT, "evidence", prop.id + ".json"), "w", encoding="utf-8"), indent=1, ensure_ascii=False)
+    json.dump(ev, open(os.path.join(EVIDENCE_DIR, prop.id + ".json"), "w", encoding="utf-8"), indent=1, ensure_ascii=False)
     if slow and a.v:
         for t, n, b in sorted(slow, reverse=True)[:10]:
             print(f"slow: {t}s {b} {n}")
